@@ -1822,9 +1822,54 @@ fn gen_backslash_word(r: &mut Rng, base: usize) -> (String, Vec<(String, String)
     (text, vec![(name, value.to_string())])
 }
 
+/// a bracket expression whose members are quoted one by one in different styles: a quoted `-`, `!`, `^`, `]`,
+/// `*`, `[` inside brackets is an ordinary member (no range, no negation, no end of the bracket), wherever it stands
+fn gen_bracket_word(r: &mut Rng, base: usize) -> (String, Vec<(String, String)>) {
+    const MEMBERS: [&str; 12] = ["a", "b", "c", "-", "-", "!", "^", "]", "*", "[", "d", "."];
+    let mut text = String::new();
+    let mut assigns = vec![];
+    match r.below(5) {
+        0 => text.push('*'),
+        1 => text.push_str("sub/"),
+        _ => {}
+    }
+    text.push('[');
+    let n = 2 + r.below(3);
+    let mut nvars = 0;
+    for _ in 0..n {
+        let m = *r.pick(&MEMBERS);
+        match r.below(8) {
+            0 | 1 | 2 => text.push_str(m),
+            3 => text.push_str(&format!("\"{m}\"")),
+            4 => text.push_str(&format!("'{m}'")),
+            5 | 6 => text.push_str(&format!("\\{m}")),
+            _ => {
+                if nvars < 2 {
+                    nvars += 1;
+                    let name = format!("v{}", base + nvars);
+                    assigns.push((name.clone(), m.to_string()));
+                    text.push_str(&format!("\"${{{name}}}\""));
+                } else {
+                    text.push_str(m);
+                }
+            }
+        }
+    }
+    text.push(']');
+    match r.below(5) {
+        0 => text.push('*'),
+        1 => text.push_str("/*"),
+        _ => {}
+    }
+    (text, assigns)
+}
+
 fn gen_word(r: &mut Rng, tree: &[Entry], base: usize, first_word: bool) -> (String, Vec<(String, String)>) {
     if r.chance(1, 12) {
         return gen_split(r, base);
+    }
+    if r.chance(1, 14) {
+        return gen_bracket_word(r, base);
     }
     if r.chance(1, 14) {
         return gen_backslash_word(r, base);
